@@ -8,7 +8,7 @@ import time
 import traceback
 
 JOBS = int(os.environ.get('VERIF_JOBS', '16'))
-CONTRACT_MODULES = ['contracts.dict_operations', 'contracts.point', 'contracts.expression', 'contracts.evals', 'contracts.translations', 'contracts.pep', 'contracts.wrappers']
+CONTRACT_MODULES = ['contracts.dict_operations', 'contracts.point', 'contracts.expression', 'contracts.evals', 'contracts.translations', 'contracts.pep', 'contracts.wrappers', 'contracts.block_partition']
 
 
 def load_contracts():
@@ -71,6 +71,9 @@ def make_input(c, key, seed, it):
 
 def describe(v):
     d = getattr(v, 'decomposition_dict', None)
+    if d is not None and hasattr(v, 'list_of_points'):
+        return '%s(samples=%d, class_constraints=%d, class_lmis=%d)' % (type(v).__name__, len(v.list_of_points), len(v.list_of_class_constraints),
+                                                                     len(v.list_of_class_psd))
     if d is not None and hasattr(v, '_is_leaf'):
         def kn(k):
             if isinstance(k, tuple):
